@@ -218,10 +218,18 @@ pub fn lb_main(args: &[String]) {
 
 async fn lb_case(c: &J) -> J {
     let mut conns = serde_json::Map::new();
+    let failing: Vec<String> = c.get("fail").and_then(|x| x.as_array()).map(|a| a.iter().map(|x| x.as_str().unwrap().to_string()).collect()).unwrap_or_default();
     for m in c["members"].as_array().unwrap() {
-        conns.insert(m.as_str().unwrap().to_string(), json!({"features": ["TcpForward"], "fail": false}));
+        let name = m.as_str().unwrap().to_string();
+        let fail = failing.contains(&name);
+        conns.insert(name, json!({"features": ["TcpForward"], "fail": fail}));
     }
-    let w = match make_world(&J::Object(conns), &[c["yaml"].as_str().unwrap().to_string()]).await {
+    // one load balancer, or several (inner ones first) when they are nested
+    let yamls: Vec<String> = match c.get("yamls").and_then(|x| x.as_array()) {
+        Some(a) => a.iter().map(|x| x.as_str().unwrap().to_string()).collect(),
+        None => vec![c["yaml"].as_str().unwrap().to_string()],
+    };
+    let w = match make_world(&J::Object(conns), &yamls).await {
         Ok(w) => Arc::new(w),
         Err(e) => return json!({"id": c["id"], "load": "rejected", "err": e}),
     };
